@@ -16,4 +16,4 @@ pub use exec::*;
 pub use report::*;
 pub use rng::{fnv, fnv_mix, Rng};
 pub use sock::*;
-pub use warm::{warm_up, with_history};
+pub use warm::{warm_up, warm_up_kind, with_history};
